@@ -106,6 +106,14 @@ Theorem C19_accepted_call_checked_callee :
     chk p H d (fn_body fd) E0 = Some (E1, v) /\ r = (aset E x (alook E1 ret_var), v).
 Proof. exact chk_call_inv. Qed.
 
+(* Meaning of the model diagnostic [dead_uses] (reported in the evidence, expected to be
+   empty): where the abstract value of a variable is empty the variable is unbound, so
+   a statement reading it has no execution and the theorems above say nothing about
+   what follows it. *)
+Theorem C19_empty_abstract_value_means_unbound :
+  forall n0 R h e E x, inv_env n0 R h e E -> aisempty (alook E x) = true -> e x = None.
+Proof. exact empty_value_unbound. Qed.
+
 (* Lemmas of the proof that are useful on their own (formerly the _partial theorems). *)
 Theorem C19_write_step :
   forall n0 R b0 H h e E x l,
@@ -174,6 +182,7 @@ Print Assumptions C19_entry_points_write_at_most_recorded_parameters.
 Print Assumptions C19_invariant_preserved.
 Print Assumptions C19_out_of_fuel_is_failure.
 Print Assumptions C19_accepted_call_checked_callee.
+Print Assumptions C19_empty_abstract_value_means_unbound.
 Print Assumptions C19_write_step.
 Print Assumptions C19_env_monotone.
 Print Assumptions C19_program_nonvacuous.
